@@ -185,7 +185,7 @@ func (s *scenario) check(cfg dfs.Config) (dfs.Stats, *dfs.Violation, map[string]
 					continue
 				}
 				for i := range results {
-					if results[i] != so.results[i] {
+					if !resEq(results[i], so.results[i]) {
 						continue next
 					}
 				}
@@ -218,7 +218,7 @@ func (s *scenario) check(cfg dfs.Config) (dfs.Stats, *dfs.Violation, map[string]
 			for _, so := range spec {
 				same := true
 				for i := range results {
-					if results[i] != so.results[i] {
+					if !resEq(results[i], so.results[i]) {
 						same = false
 						break
 					}
@@ -555,6 +555,15 @@ func Run(c *evid.Ctx) {
 	shard.SpawnRace(c, 16)
 	c.Cov["traces_validated_against_impl"] = c.Counter("states")
 	c.Cov["rule"] = "states = complete executions (schedules) of a scenario on the real type; transitions = scheduler steps; every execution's result vector and final canonical heap must equal those of a real-time-consistent sequential order of the same operations on the real type"
+}
+
+// resEq compares two formatted results; a list node that has meanwhile been removed (and emptied)
+// matches any node.
+func resEq(a, b string) bool {
+	if a == b {
+		return true
+	}
+	return strings.HasPrefix(a, "node:") && strings.HasPrefix(b, "node:") && (a == "node:removed" || b == "node:removed")
 }
 
 func violKey(s *scenario, verdict string) string {
